@@ -102,7 +102,7 @@ def base_cases(ctx, seed, tier):
     # AVL tree
     for _ in range(10 if not big else 40):
         out.append(("tree", r.choice("dn") + " " + ops(r.randrange(4, 30), r.choice([6, 20]), r.choice([0.6, 0.85]))))
-    for size in (1, 2, 100, 4096, 70000):
+    for size in (0, 1, 2, 100, 4096, 70000, 2**31, 2**31 + 1, 0xC0000000, 2**32 - 1):
         out.append(("ring", str(size)))
     strs = ["", "a", "/", "a/b", "/a/../b/./c//", "../x", "a.b/c.d", "//", "~/x$ZIXV/y", "$ZIXV$ZIXV:~", "no refs at all",
             "a" * 300, "$UNSET_VAR/x/$ZIXV/~"]
@@ -118,6 +118,7 @@ def base_cases(ctx, seed, tier):
     out.append(("join", hexs("a") + " NULL"))
     for n in (60, 127, 128, 129, 255, 256, 257, 258, 511, 512, 513, 1023, 1024, 1025):
         out.append(("fs", "mkdirs %d" % n))
+    out.append(("fs", "cwdlong"))
     for op in ("mkdirs", "canon", "cwd", "tmpdir", "mktmp", "copy 5000", "copyx 0", "copyx 511", "copyx 513", "copyx 70000",
                "equals 0", "equals 4095", "equals 4096", "equals 9000", "equals 9000 8999", "equals 9000 0",
                "equals 600 512"):
@@ -271,6 +272,8 @@ def model_trace_cmd(comp, fault, args, line, nofault_line):
             return "G mkdirs " + bits
         if op in ("canon", "cwd", "tmpdir", "mktmp"):
             return "G one " + bits
+        if op == "cwdlong":
+            return None
         if op == "copyx" and args.split()[1] != "0":   # an empty source never reaches the block path
             return "G copyblk " + bits
         if op == "equals" and nofault_line and trace_of(nofault_line):
